@@ -644,7 +644,8 @@ fn round_ascii_digits(
 pub(crate) fn write_scientific_notation<W: Write>(n: &BigDecimal, w: &mut W) -> fmt::Result {
     verif_probe!(Fmt_Sci);
     if n.is_zero() {
-        return w.write_str("0e0");
+        // keep the scale of a zero in the exponent, as `{:e}` does ("0e0" for scale 0)
+        return write!(w, "0e{}", -(n.scale as i128));
     }
 
     if n.int_val.sign() == Sign::Minus {
